@@ -18,10 +18,6 @@ inductive Anc (T : Topo) : Zone → Zone → Prop
   | refl (a : Zone) : Anc T a a
   | step {a p z : Zone} : T.parent a = some p → Anc T p z → Anc T a z
 
-/-- the zone an event is about: the object's zone, the relaying node's own zone when the object has none -/
-def targetZone (T : Topo) (self : Ep) (objZone : Option Zone) : Zone :=
-  match objZone with | some z => z | none => T.zoneOf self
-
 /-- "zones entitled to know about it — the object's own zone and the zones above it (for objects in a global
     zone: the local zone and its direct children)" -/
 def Entitled (T : Topo) (self : Ep) (objZone : Option Zone) (z : Zone) : Prop :=
@@ -109,13 +105,21 @@ def specCase (fuel : Nat) (T : Topo) (c : Case) (o : Obs) : Option Clause :=
 
 def Result.obs (r : Result) : Obs := ⟨r.sent, r.persist, r.originZone⟩
 
-/-- What `specCase`'s theorem needs of the configuration: an endpoint listed in a zone has that zone cached
-    (`Zone::OnAllConfigLoaded` → `SetCachedZone`, an endpoint in two zones is refused, endpoint.cpp:30-37), the
-    endpoint sets and the zone registry hold distinct objects, and the zone graph is a forest (a cyclic one is
-    refused, zone.cpp:44). -/
-structure WF (T : Topo) (self : Ep) : Prop where
-  zone_of_mem : ∀ z e, e ∈ T.eps self z → T.zoneOf e = z
-  eps_nodup : ∀ z, (T.eps self z).Nodup
+/-- Global zones stand beside the zone tree: a global zone is nobody's parent (`Zone::OnAllConfigLoaded` refuses
+    that, zone.cpp:19-20) and has no parent itself (nothing refuses that; it is what "zone trees plus global zones"
+    in the property's quantifier means - a global zone with a parent would additionally be relayed along that
+    parent chain). -/
+structure Detached (T : Topo) : Prop where
+  global_no_parent : ∀ g, T.isGlobal g = true → T.parent g = none
+  parent_not_global : ∀ z p, T.parent z = some p → T.isGlobal p = false
+
+/-- What the no-duplicate clause of `specCase` needs of the configuration as node `node` sees it: an endpoint listed
+    in a zone has that zone cached (`Zone::OnAllConfigLoaded` → `SetCachedZone`; an endpoint in two zones is
+    refused, endpoint.cpp:30-37), the endpoint sets and the zone registry hold distinct objects, and the zone graph
+    is a forest (a cyclic one is refused, zone.cpp:44). -/
+structure WF (T : Topo) (node : Ep) : Prop extends Detached T where
+  zone_of_mem : ∀ z e, e ∈ T.eps node z → T.zoneOf e = z
+  eps_nodup : ∀ z, (T.eps node z).Nodup
   zones_nodup : T.zones.Nodup
   acyclic : ∃ rank : Zone → Nat, ∀ z p, T.parent z = some p → rank p < rank z
 
@@ -135,14 +139,16 @@ def NetClause.name : NetClause → String
 def netEntitledB (T : Topo) (origZone oz z : Zone) : Bool :=
   if T.isGlobal oz then isChildOf T z origZone else isChildOf T oz z
 
-/-- The cluster-wide sentences on the history of one event: nobody processes it twice, only endpoints of entitled
-    zones process it, no message is sent to somebody who has to discard it, and the number of deliveries stays
-    below the number of endpoints `allEps`. -/
+/-- The cluster-wide sentences on the history of one event: nobody processes it twice; apart from the originator
+    only endpoints of entitled zones process it; when the originator's own zone is entitled no message is sent to
+    somebody who has to discard it; and the number of messages ever put on the wire (delivered, discarded or still
+    in flight) stays below the number of endpoints `allEps`. -/
 def specNet (T : Topo) (allEps : List Ep) (orig : Ep) (oz : Zone) (n : Net) : Option NetClause :=
+  let ent := fun z => netEntitledB T (T.zoneOf orig) oz z
   if !nodupB n.processed then some .processed_twice
-  else if !n.processed.all (fun e => netEntitledB T (T.zoneOf orig) oz (T.zoneOf e)) then some .processed_not_entitled
-  else if !n.discarded.isEmpty then some .discarded_message
-  else if n.processed.length + n.inflight.length > allEps.length then some .too_many_deliveries
+  else if !(n.processed.drop 1).all (fun e => ent (T.zoneOf e)) then some .processed_not_entitled
+  else if ent (T.zoneOf orig) && !n.discarded.isEmpty then some .discarded_message
+  else if n.processed.length + n.discarded.length + n.inflight.length > allEps.length then some .too_many_deliveries
   else none
 
 end Icinga.C11
